@@ -5,6 +5,7 @@ for d in $(ls -d $root/C*/[A-Z] 2>/dev/null | sort); do
   name=$(echo "$d" | sed -E 's#.*/(C[0-9]+)/([A-Z])$#\1-\2#')
   [ -f "$d/patch.diff" ] || continue
   if grep -q "^DONE" /tmp/confirm/$name.result 2>/dev/null; then continue; fi
+  mkdir /tmp/confirm/$name.lock 2>/dev/null || continue   # another loop is on it
   /verif/tools/confirm_seed.sh "$d" "$name" > /tmp/confirm-$name.log 2>&1
   echo "$name: $(tr '\n' ';' < /tmp/confirm/$name.result | cut -c1-300)"
 done
